@@ -33,7 +33,7 @@ def main():
                     code, viols, aerr = 2, [], [repr(e)]
                 if viols:
                     fired.append((p, [f"{v.rule} {v.key[:80]}" for v in viols[:3]]))
-                if aerr:
+                if aerr and "no rules registered" not in str(aerr[0]):
                     errs.append((p, aerr[:1]))
             summary.append((d, fired, errs))
         finally:
